@@ -562,6 +562,13 @@ def execute(trace, ctx):
             lst = [tkey(t) for t in res]
             ctx.check(len(lst) == len(set(lst)) and set(lst) == exp, "C01.binop", lambda: f"{op['a']} {o} {op['b']}: got {_srt(lst)} expected {_srt(exp)}")
             ctx.check(len(res) == len(exp), "C01.binop-len", lambda: f"len({op['a']} {o} {op['b']}) = {len(res)} expected {len(exp)}")
+            # the result is a graph of its own: what is added to it later shows in neither operand
+            from rdflib import URIRef as _U
+
+            marker = (_U("http://ex.org/result-only"), _U("http://ex.org/p"), _U("http://ex.org/result-only"))
+            res.add(marker)
+            ctx.check(marker not in a and marker not in b, "C01.binop-result-aliases-operand", lambda: f"{op['a']} {o} {op['b']}: a triple added to the result afterwards shows in an operand")
+            res.remove(marker)
         else:
             raise ValueError(k)
         if model != before:
